@@ -808,13 +808,24 @@ func c01SendHeader(r *Run, x *codecX, send *FuncInfo) {
 	}
 	isPayload := func(e ast.Expr) bool {
 		e = unparen(e)
-		if id, ok := e.(*ast.Ident); ok {
+		isCall := func(x ast.Expr) bool {
+			c, ok := unparen(x).(*ast.CallExpr)
+			return ok && strings.HasSuffix(calleeKey(info, c), ".Payload")
+		}
+		// through locals that stand for it (seg := payload), down to a variable that only
+		// ever holds the result of Payload() (or its zero value: var payload []byte)
+		for i := 0; i < 4; i++ {
+			id, ok := e.(*ast.Ident)
+			if !ok {
+				break
+			}
 			if d := res.defs[objOf(info, id)]; d != nil {
 				e = unparen(d)
+				continue
 			}
+			return allDefsAre(info, send, id, isCall)
 		}
-		c, ok := e.(*ast.CallExpr)
-		return ok && strings.HasSuffix(calleeKey(info, c), ".Payload")
+		return isCall(e)
 	}
 	// size field = 7 + len(fixed part) + len(payload): all definitions of the size variable
 	obj := objOf(info, sizeArg)
